@@ -12,7 +12,7 @@ import (
 
 // FaultKinds names the ways fault(i) can fail (the chunk's second argument selects one by index, 1-based).
 var FaultKinds = []string{"error_string", "error_string_level2", "error_string_level0", "error_table", "error_nil", "error_number",
-	"host_raise", "host_panic", "host_runtime_panic", "arith_on_nil", "call_nil", "index_nil"}
+	"host_raise", "host_panic", "host_runtime_panic", "arith_on_nil", "call_nil", "index_nil", "call_stack_overflow", "registry_overflow"}
 
 // FaultPrelude is the Lua text that defines fault(i).
 const FaultPrelude = `local ARMED, KIND = ...
@@ -29,7 +29,9 @@ local function fault(i)
   elseif KIND == 9 then hostnilpanic()
   elseif KIND == 10 then local z = nil; return z + i
   elseif KIND == 11 then local z = nil; return z(i)
-  else local z = nil; return z.field
+  elseif KIND == 12 then local z = nil; return z.field
+  elseif KIND == 13 then hoststackoverflow()
+  else hostregoverflow()
   end
 end
 `
@@ -119,7 +121,22 @@ func (g *Gen) tplProtected() []L.Stmt {
 	out := []L.Stmt{local([]string{la, lb, up}, num(11), str("keep"), num(0))}
 	// a closure over up created before the protected call: shares the variable with the failing body
 	out = append(out, local1("getup"+id, fn(nil, false, blk(ret(name(up))))))
-	body := fn([]string{"p1", "p2"}, true, blk(append(append([]L.Stmt{emit(str("body start"), name("p1"), name("p2"), call(name("select"), str("#"), &L.VarargExpr{}))}, g.faultyBody([]string{up}, 2)...), ret(str("body ok"), name("p1"), &L.VarargExpr{}))...))
+	// closures over a local of the failing body escape through this table and are used after the call has failed
+	esc := "esc" + id
+	out = append(out, local1(esc, tbl()))
+	bodyStmts := []L.Stmt{emit(str("body start"), name("p1"), name("p2"), call(name("select"), str("#"), &L.VarargExpr{})),
+		local1("ev", num(42)),
+		assign1(field(name(esc), "get"), fn(nil, false, blk(ret(name("ev"))))),
+		assign1(field(name(esc), "set"), fn([]string{"x"}, false, blk(assign1(name("ev"), name("x")))))}
+	fb := g.faultyBody([]string{up, "ev"}, 2)
+	bodyStmts = append(bodyStmts, fb...)
+	alwaysFails := g.n(5, "bodyalwaysfails") == 0
+	if alwaysFails {
+		// the body fails by itself at its end: the handler of xpcall runs in every run, also the fault-free one
+		g.class("err:body_always_fails")
+		bodyStmts = append(bodyStmts, ifs(bin("==", name("ev"), name("ev")), blk(callStmt(call(name("error"), tbl(kv(str("site"), num(-1)))))), nil))
+	}
+	body := fn([]string{"p1", "p2"}, true, blk(append(bodyStmts, ret(str("body ok"), name("p1"), &L.VarargExpr{}))...))
 	args := []L.Expr{num(1), str("two"), &L.NilExpr{}, num(4)}[:g.n(5, "npargs")]
 	form := g.n(4, "protform")
 	g.class("err:protform" + strconv.Itoa(form))
@@ -133,9 +150,31 @@ func (g *Gen) tplProtected() []L.Stmt {
 	case 1:
 		// xpcall: the handler runs once, before unwinding (it can still see the failing function's frame depth through a
 		// counter kept by the body), and its result is what the caller receives
-		h := fn([]string{"m"}, false, blk(emit(append([]L.Expr{str("handler")}, describeErr("m")[:2]...)...), assign1(name(up), bin("+", name(up), num(1000))), ret(str("handled"), str("second handler result is dropped"))))
+		hs := []L.Stmt{emit(append([]L.Expr{str("handler")}, describeErr("m")[:2]...)...), assign1(name(up), bin("+", name(up), num(1000)))}
+		hkind := g.n(4, "handlerkind")
+		switch hkind {
+		case 1:
+			// the handler fails too: what the caller receives after false is not fixed, everything else is
+			g.class("err:handler_fails")
+			switch g.n(3, "handlerfailure") {
+			case 0:
+				hs = append(hs, callStmt(call(name("error"), str("handler failed"))))
+			case 1:
+				hs = append(hs, local1("hz", bin("+", &L.NilExpr{}, num(1))))
+			default:
+				hs = append(hs, callStmt(call(name("hostpanic"))))
+			}
+		case 2:
+			// the handler has a fault site of its own (reached when the body fails by itself)
+			g.class("err:site_in_handler")
+			hs = append(hs, g.siteStmt())
+		}
+		h := fn([]string{"m"}, false, blk(append(hs, ret(str("handled"), str("second handler result is dropped")))...))
 		wrapped := fn(nil, false, blk(ret(call(paren(body), args...))))
 		out = append(out, assign1(name(res), tbl(pos(call(name("xpcall"), wrapped, h)))))
+		if hkind == 1 || hkind == 2 {
+			out = append(out, ifs(un("not", idx(name(res), num(1))), blk(assign1(idx(name(res), num(2)), str("(not fixed when the handler fails)"))), nil))
+		}
 	case 2:
 		// protected call made from the Go side (L.PCall inside a host function)
 		out = append(out, assign1(name(res), tbl(pos(call(name("hostpcall"), append([]L.Expr{body}, args...)...)))))
@@ -149,6 +188,13 @@ func (g *Gen) tplProtected() []L.Stmt {
 	out = append(out,
 		emit(str("outcome"), idx(r, num(1)), call(name("type"), idx(r, num(2))), bin("and", bin("==", call(name("type"), idx(r, num(2))), str("table")), field(idx(r, num(2)), "site")), idx(r, num(2)), idx(r, num(3)), call(name("select"), str("#"), call(name("unpack"), r, num(1), num(6)))),
 		emit(str("caller state"), name(la), name(lb), name(up), call(name("getup"+id))),
+		// the closures that escaped from the (failed) body own their variable: frames laid over the old registers neither
+		// see it nor are changed through it
+		&L.LocalFuncStmt{Name: "probe" + id, Fn: fn([]string{"a", "b", "c", "d", "e", "f", "g", "h"}, false, blk(ret(call(field(name(esc), "get")))))},
+		emit(str("escaped"), call(name("probe"+id), num(1), num(2), num(3), num(4), num(5), num(6), num(7), num(8))),
+		&L.LocalFuncStmt{Name: "poke" + id, Fn: fn([]string{"a", "b", "c", "d", "e", "f", "g", "h"}, false, blk(callStmt(call(field(name(esc), "set"), num(1000))),
+			ret(bin("+", bin("+", bin("+", name("a"), name("b")), bin("+", name("c"), name("d"))), bin("+", bin("+", name("e"), name("f")), bin("+", name("g"), name("h")))))))},
+		emit(str("poked"), call(name("poke"+id), num(1), num(2), num(3), num(4), num(5), num(6), num(7), num(8)), call(field(name(esc), "get"))),
 		// later behaviour: ordinary calls, a further protected call that fails on its own, and one that succeeds
 		emit(call(name("hostf"), num(2), name(la), name(lb), name(up))),
 		emit(call(name("pcall"), name("error"), tbl(kv(str("later"), &L.TrueExpr{})))),
